@@ -269,7 +269,7 @@ def mk_array(compact):
 
         aw = (Wr.compact_array_writer if compact else Wr.legacy_array_writer)(Wr.write_int32)
         ar = (R.compact_array_reader if compact else R.legacy_array_reader)(R.read_int32)
-        n = I.choose("n", [None, 0, 1, 2, 3, 126, 127, 128])
+        n = I.choose("n", [None, 0, 1, 2, 3, 126, 127, 128, 300, 1000])  # 300/1000: beyond any plausible chunk size of a bulk fast path
         items = None if n is None else tuple(I.int(f"x{i}", -(2**31), 2**31 - 1) for i in range(n))
         s = I.sink()
         aw(s, items)
@@ -503,7 +503,7 @@ def check(tier):
                    "kio.serial.writers.write_tagged_field/write_empty_tagged_fields", "kio.static.primitive (Phantom predicates reached through i16()/i32()/uvarint())"],
         bounds={"fixed_width_ints": "every value of the type; outside-domain values with |v| <= 2^100", "reader_inputs": "every byte string of the width (+1 tail byte)",
                 "varints": "write: [0, 2^35) resp. [0, 2^70); read: every 6- resp. 11-byte input", "zigzag": "all of int32 / int64",
-                "strings_bytes": "every length in [0, 2^31) (regions), null forms; legacy bytes also 2^31-2..2^31+2", "arrays": "null and 0..3, 126, 127, 128 int32 items",
+                "strings_bytes": "every length in [0, 2^31) (regions), null forms; legacy bytes also 2^31-2..2^31+2", "arrays": "null and 0..3, 126, 127, 128, 300, 1000 int32 items",
                 "durations": "i32: all 2^32 wire values; i64: every whole millisecond of the i64Timedelta type", "timestamps": "every whole millisecond from the epoch to 9999-12-31T23:59:59.999Z, UTC",
                 "float_model": "R-mode (z3 Int/Real, standard model of IEEE-754 rounding) for the time conversions"},
         outside=["payload content (opaque)", "arrays longer than 3", "non-UTC offsets (C12)", "sub-millisecond durations/timestamps (C12)",
